@@ -84,7 +84,21 @@ def q(s):
     return "'%s'" % s.replace("'", "''")
 
 
-def chunks(p):
+BAD_KINDS = ['syntax', 'cardinality', 'character']
+
+
+def bad_tail(p, kind):
+    '''What makes the rejected chunk fail: a syntax error, an illegal cardinality (raised by a grammar action after the
+    statements before it were parsed), or an illegal character.'''
+    if kind == 'cardinality':
+        return 'CREATE ROP REF_ID R9 FROM 2 %s (A_Id) TO 1 %s (Id);\nINSERT INTO %s VALUES (%s, %s);\n' % (
+            p['B'], p['A'], p['A'], uid(0x10a), q(p['s'][2]))
+    if kind == 'character':
+        return '$\n'
+    return 'CREATE TABLE ;\n'
+
+
+def chunks(p, bad_kind='syntax'):
     A, B = p['A'], p['B']
     return [
         'CREATE TABLE %s (Id UNIQUE_ID, %s STRING);\n' % (A, p['Name']) +
@@ -104,7 +118,7 @@ def chunks(p):
         'CREATE UNIQUE INDEX I1 ON %s (Id);\n' % B,
 
         # rejected as a whole: the first statement is fine, the second is not
-        'INSERT INTO %s VALUES (%s, %s);\nCREATE TABLE ;\n' % (A, uid(0x109), q(p['s'][3])),
+        'INSERT INTO %s VALUES (%s, %s);\n' % (A, uid(0x109), q(p['s'][3])) + bad_tail(p, bad_kind),
     ]
 
 
@@ -260,7 +274,7 @@ class LoaderModel(explorer.Model):
     mut_names = None       # None: every mutation of the menu
     bad = BAD              # index of the chunk that is rejected
 
-    def __init__(self, tier, seed=0, max_mm=None, cap_new=None, gens=None):
+    def __init__(self, tier, seed=0, max_mm=None, cap_new=None, gens=None, bad_kind='syntax'):
         # gens[k]: 'explicit' = the k-th successful build is given its own IntegerGenerator, 'default' = no generator
         # argument (builds beyond the pattern: explicit)
         self.gens = list(gens or [])
@@ -268,7 +282,8 @@ class LoaderModel(explorer.Model):
         self.tier = tier
         self.seed = seed
         self.p = PALETTES[seed % len(PALETTES)]
-        self.chunks = chunks(self.p)
+        self.bad_kind = bad_kind
+        self.chunks = chunks(self.p, bad_kind)
         self.max_mm = max_mm or (2 if tier == 'quick' else 3)
         self.cap_new = cap_new or (1 if tier == 'quick' else 2)
 
@@ -276,6 +291,8 @@ class LoaderModel(explorer.Model):
         c = dict(hist=hist, op=op, tier=self.tier, seed=self.seed, max_mm=self.max_mm, cap_new=self.cap_new)
         if self.gens:
             c['gens'] = self.gens
+        if getattr(self, 'bad_kind', 'syntax') != 'syntax':
+            c['bad_kind'] = self.bad_kind
         if self.family:
             c['family'] = self.family
         return c
@@ -930,9 +947,10 @@ def run(ctx):
     for h in (hs[len(hs) // 3], hs[2 * len(hs) // 3], hs[-1]):
         ctx.sample(dict(history=h))
     # generator family: every pattern of explicit / default generators over the builds
-    for gens in gen_patterns(m.max_mm):
-        gm = LoaderModel(ctx.tier, ctx.seed, gens=gens)
-        label = 'generators-' + '-'.join(g[0] for g in gens)
+    for gi, gens in enumerate(gen_patterns(m.max_mm)):
+        # (the searches of this family also take turns in what makes the rejected chunk fail)
+        gm = LoaderModel(ctx.tier, ctx.seed, gens=gens, bad_kind=BAD_KINDS[(gi + 1) % len(BAD_KINDS)])
+        label = 'generators-' + '-'.join(g[0] for g in gens) + ':' + gm.bad_kind
         r2 = explorer.bfs(ctx, gm, max_depth=GEN_DEPTH[ctx.tier], chunk=8, label=label)
         print('  %s: states=%d depth=%d t=%.0fs' % (label, r2['states'], r2['depth'], ctx.elapsed()), flush=True)
         ctx.count('generator_family_states', r2['states'])
@@ -979,7 +997,8 @@ def replay(ctx, case):
     if case.get('family') in FAMILY_MODELS:
         m = FAMILY_MODELS[case['family']](case.get('tier', 'quick'), case.get('seed', 0))
         return explorer.replay_case(ctx, m, case['hist'], case.get('op'))
-    m = LoaderModel(case.get('tier', 'quick'), case.get('seed', 0), case.get('max_mm'), case.get('cap_new'), case.get('gens'))
+    m = LoaderModel(case.get('tier', 'quick'), case.get('seed', 0), case.get('max_mm'), case.get('cap_new'), case.get('gens'),
+                    case.get('bad_kind', 'syntax'))
     explorer.replay_case(ctx, m, case['hist'], case.get('op'))
 
 
